@@ -4,7 +4,7 @@
 
 use crate::ast::{
     AstNode, Expr, ExprKind, FileAst, Item, ItemKind, MatchArm, Pat, PatKind, PatStructFields,
-    PatVariantData, Stmt, StmtKind, StructDef,
+    PatVariantData, Stmt, StmtKind, StructDef, TypeDefKind,
 };
 
 use core::panic;
@@ -42,7 +42,15 @@ fn check_pattern_exhaustiveness_item(statics: &mut StaticsContext, stmt: &Item) 
     match &*stmt.kind {
         ItemKind::Import(..) => {}
         ItemKind::InterfaceDef(..) => {}
-        ItemKind::TypeDef(..) => {}
+        ItemKind::TypeDef(TypeDefKind::Struct(struct_def)) => {
+            for field in &struct_def.fields {
+                if let Some(default_val) = &field.default_val {
+                    check_pattern_exhaustiveness_expr(statics, default_val);
+                }
+            }
+        }
+        // default values of variant fields are not type checked
+        ItemKind::TypeDef(TypeDefKind::Enum(..)) => {}
         ItemKind::FuncDecl(f) => {
             for arg in &f.args {
                 if let Some(default_arg) = &arg.default_val {
@@ -86,7 +94,8 @@ fn check_pattern_exhaustiveness_item(statics: &mut StaticsContext, stmt: &Item) 
 
 fn check_pattern_exhaustiveness_stmt(statics: &mut StaticsContext, stmt: &Stmt) {
     match &*stmt.kind {
-        StmtKind::Assign(_, _, expr) => {
+        StmtKind::Assign(lhs, _, expr) => {
+            check_pattern_exhaustiveness_expr(statics, lhs);
             check_pattern_exhaustiveness_expr(statics, expr);
         }
         StmtKind::Let(_, _, expr) => {
@@ -119,11 +128,14 @@ fn check_pattern_exhaustiveness_stmt(statics: &mut StaticsContext, stmt: &Stmt) 
 fn check_pattern_exhaustiveness_expr(statics: &mut StaticsContext, expr: &Rc<Expr>) {
     match &*expr.kind {
         ExprKind::Match(scrutiny, arms) => {
-            if statics.solution_of_node(scrutiny.node()).is_none() {
-                return;
+            if statics.solution_of_node(scrutiny.node()).is_some() {
+                match_expr_exhaustive_check(statics, expr.node(), scrutiny, arms);
             }
-
-            match_expr_exhaustive_check(statics, expr.node(), scrutiny, arms);
+            // match expressions nested in the scrutinee or in the arms
+            check_pattern_exhaustiveness_expr(statics, scrutiny);
+            for arm in arms {
+                check_pattern_exhaustiveness_stmt(statics, &arm.stmt);
+            }
         }
 
         ExprKind::Nil
@@ -156,7 +168,12 @@ fn check_pattern_exhaustiveness_expr(statics: &mut StaticsContext, expr: &Rc<Exp
                 check_pattern_exhaustiveness_stmt(statics, stmt2);
             }
         }
-        ExprKind::AnonymousFunction(_args, _out_annot, body) => {
+        ExprKind::AnonymousFunction(args, _out_annot, body) => {
+            for arg in args {
+                if let Some(default_arg) = &arg.default_val {
+                    check_pattern_exhaustiveness_expr(statics, default_arg);
+                }
+            }
             check_pattern_exhaustiveness_expr(statics, body);
         }
         ExprKind::FuncCall(func, args) => {
@@ -184,7 +201,9 @@ fn check_pattern_exhaustiveness_expr(statics: &mut StaticsContext, expr: &Rc<Exp
         ExprKind::Try(expr) => {
             check_pattern_exhaustiveness_expr(statics, expr);
         }
-        ExprKind::TaskBlock(_) => {}
+        ExprKind::TaskBlock(body) => {
+            check_pattern_exhaustiveness_expr(statics, body);
+        }
     }
 }
 
